@@ -126,6 +126,7 @@ theorem makeFrame_sim (S : FrameSim C1 C2 cfg) (ks1 : List κ1) (ks2 : List κ2)
   cases a with
   | call i => exact S.callFrame _ _ _ _ _ _ _ hR h
   | create i => exact S.createFrame _ _ _ _ _ _ _ hR h
+  | eofCreate i => simp [throw, throwThe, MonadExceptOf.throw] at h
 
 theorem frameAction_sim (S : FrameSim C1 C2 cfg) (t1 : Frame κ1) (t2 : Frame κ2) (r1 : List (Frame κ1))
     (r2 : List (Frame κ2)) (a : Interp.Action) (s : Interp.IState) (w1 w2 : World)
